@@ -58,6 +58,11 @@ func cmdInfer(args []string) {
 	var enss []*reqCand
 	for _, f := range e.order {
 		name := e.fname(f)
+		if e.usedAsValue(f) {
+			// called through a function value (callback, template function, ...): no call site checks a
+			// precondition, so none may be assumed
+			continue
+		}
 		for _, p := range f.Params {
 			if p.Name() == "" || p.Name() == "_" {
 				continue
@@ -286,6 +291,7 @@ func cmdInfer(args []string) {
 		}
 	}
 	fieldC, elemC, boxC := map[string]bool{}, map[string]bool{}, map[string]bool{}
+	elemOK := map[string]bool{}
 	foldC := map[string]bool{}
 	seenT := map[string]bool{}
 	var addType func(t types.Type)
@@ -299,11 +305,13 @@ func cmdInfer(args []string) {
 		case *types.Slice:
 			if isPtrLike(u.Elem()) {
 				elemC[k] = true
+				elemOK[k] = e.ownType(u.Elem())
 			}
 			addType(u.Elem())
 		case *types.Map:
 			if isPtrLike(u.Elem()) {
 				elemC[k] = true
+				elemOK[k] = e.ownType(u.Elem())
 			}
 			addType(u.Elem())
 		case *types.Pointer:
@@ -394,6 +402,14 @@ func cmdInfer(args []string) {
 			cs.FoldedField[k] = true
 		} else {
 			delete(foldC, k)
+		}
+	}
+	// element facts: only containers whose elements are values of the package's own types and that are
+	// never filled by reflection (yaml / json decoding may store nil for `null`)
+	decoded := e.decodedTypes()
+	for k := range elemC {
+		if decoded[k] || !elemOK[k] {
+			delete(elemC, k)
 		}
 	}
 	for k := range elemC {
@@ -911,4 +927,130 @@ func resultNilChecked(f *ssa.Function, callers []*ssa.Function) bool {
 		}
 	}
 	return false
+}
+
+// usedAsValue: the function (or closure) is used other than as the callee of a direct call.
+func (e *Engine) usedAsValue(f *ssa.Function) bool {
+	if e.valueUse == nil {
+		e.valueUse = map[*ssa.Function]bool{}
+		for _, g := range e.order {
+			for _, b := range g.Blocks {
+				for _, ins := range b.Instrs {
+					if mc, ok := ins.(*ssa.MakeClosure); ok {
+						fn, _ := mc.Fn.(*ssa.Function)
+						if fn == nil {
+							continue
+						}
+						if refs := mc.Referrers(); refs != nil {
+							for _, r := range *refs {
+								if _, isDbg := r.(*ssa.DebugRef); isDbg {
+									continue // a debug reference is not a use
+								}
+								call, isCall := r.(ssa.CallInstruction)
+								if !isCall || call.Common().Value != ssa.Value(mc) {
+									e.valueUse[fn] = true
+								} else {
+									for _, a := range call.Common().Args {
+										if a == ssa.Value(mc) {
+											e.valueUse[fn] = true
+										}
+									}
+								}
+							}
+						}
+						continue
+					}
+					var ops []*ssa.Value
+					for _, op := range ins.Operands(ops) {
+						fn, ok := (*op).(*ssa.Function)
+						if !ok || fn.Pkg != e.pkg {
+							continue
+						}
+						if call, isCall := ins.(ssa.CallInstruction); isCall && call.Common().Value == ssa.Value(fn) {
+							used := false
+							for _, a := range call.Common().Args {
+								if a == ssa.Value(fn) {
+									used = true
+								}
+							}
+							if !used {
+								continue
+							}
+						}
+						e.valueUse[fn] = true
+					}
+				}
+			}
+		}
+	}
+	return e.valueUse[f]
+}
+
+// ownType: a pointer to / an interface or named type declared in the package under verification.
+func (e *Engine) ownType(t types.Type) bool {
+	if p, ok := t.Underlying().(*types.Pointer); ok {
+		t = p.Elem()
+	}
+	nt, ok := t.(*types.Named)
+	return ok && nt.Obj().Pkg() == e.tpkg
+}
+
+// decodedTypes: names of the container types reachable from a value handed to a reflection-based
+// decoder (json / yaml Unmarshal, Decode).
+func (e *Engine) decodedTypes() map[string]bool {
+	out := map[string]bool{}
+	seen := map[string]bool{}
+	var walk func(t types.Type)
+	walk = func(t types.Type) {
+		k := e.typeName(t)
+		if seen[k] {
+			return
+		}
+		seen[k] = true
+		switch u := t.Underlying().(type) {
+		case *types.Pointer:
+			walk(u.Elem())
+		case *types.Slice:
+			out[k] = true
+			walk(u.Elem())
+		case *types.Map:
+			out[k] = true
+			walk(u.Elem())
+		case *types.Array:
+			walk(u.Elem())
+		case *types.Struct:
+			for i := 0; i < u.NumFields(); i++ {
+				walk(u.Field(i).Type())
+			}
+		}
+	}
+	for _, f := range e.order {
+		for _, b := range f.Blocks {
+			for _, ins := range b.Instrs {
+				call, ok := ins.(ssa.CallInstruction)
+				if !ok {
+					continue
+				}
+				name := ""
+				if g := call.Common().StaticCallee(); g != nil {
+					name = libName(g)
+				} else if call.Common().IsInvoke() {
+					name = call.Common().Method.Name()
+				}
+				if !(strings.HasSuffix(name, "Unmarshal") || strings.HasSuffix(name, "Decode")) {
+					continue
+				}
+				for _, a := range call.Common().Args {
+					v := a
+					if mi, ok := v.(*ssa.MakeInterface); ok {
+						v = mi.X
+					}
+					if _, isPtr := v.Type().Underlying().(*types.Pointer); isPtr {
+						walk(v.Type())
+					}
+				}
+			}
+		}
+	}
+	return out
 }
